@@ -90,12 +90,30 @@ pub fn generate(prop: &str, seed: u64, idx: u64, tier: Tier) -> Plan {
         let i = nch;
         p.knobs.insert("nch".into(), (nch + 1) as i64);
         let creator_b = r.chance(50);
-        p.knobs.insert(format!("ch{i}"), if prop == "C01" { 8 } else { 8 + r.below(6) as i64 } + if creator_b { 16 } else { 0 });
+        p.knobs.insert(format!("ch{i}"), (if prop == "C01" { 8 } else { 8 + r.below(6) as i64 }) + if creator_b { 16 } else { 0 });
         p.knobs.insert(format!("pr{i}"), 300);
         p.knobs.insert(format!("late{i}"), r.range(start, t + 200) as i64);
         let side = if creator_b { 1 } else { 0 };
         for k in 0..r.range(1, 3) {
             p.ops.push(Op::new(t + 100 + k * 10, "send", &[side as i64, i as i64, 0, r.range(12, 3000) as i64]));
+        }
+    }
+    // a pre-negotiated channel that both applications register while the association is already in use; its
+    // `creator` is the side that talks first
+    if prop != "C13" && r.chance(15) {
+        let i = p.knobs.get("nch").copied().unwrap_or(nch as i64) as u64;
+        p.knobs.insert("nch".into(), (i + 1) as i64);
+        let creator_b = r.chance(50);
+        p.knobs.insert(format!("ch{i}"), (if prop == "C01" { 0 } else { r.below(6) as i64 }) + if creator_b { 16 } else { 0 });
+        p.knobs.insert(format!("pr{i}"), 300);
+        let at = r.range(start + 300, t + 600);
+        p.knobs.insert(format!("late{i}"), at as i64);
+        let side = if creator_b { 1 } else { 0 };
+        for k in 0..r.range(1, 4) {
+            p.ops.push(Op::new(at + 500 + k * 10, "send", &[side as i64, i as i64, 0, r.range(12, 3000) as i64]));
+        }
+        if r.chance(40) {
+            p.ops.push(Op::new(at + 900, "send", &[1 - side as i64, i as i64, 0, r.range(12, 3000) as i64]));
         }
     }
     if prop == "C12" && r.chance(15) {
